@@ -26,13 +26,14 @@ Record In3 (s s' : state) : Prop := mkIn3 {
   i_startd : is_some (s_startd s') = is_some (s_startd s);
   i_lp : s_lp s' = s_lp s;
   i_lc : s_lc s' = s_lc s;
-  i_susp : s_susp s' = s_susp s /\ s_maxatt s' = s_maxatt s \/ s_susp s = true /\ s_susp s' = false /\ s_maxatt s' = 0
+  i_susp : s_susp s' = s_susp s /\ s_maxatt s' = s_maxatt s \/ s_susp s = true /\ s_susp s' = false /\ s_maxatt s' = 0;
+  i_shut : (s_shutting s = false -> s_shutting s' = false) /\ (s_shutd s = false -> s_shutd s' = false)
 }.
 Lemma In3_refl s : In3 s s.
 Proof. constructor; auto. Qed.
 Lemma In3_trans a b c : In3 a b -> In3 b c -> In3 a c.
 Proof.
-  intros [a1 a2 a3 a4 a5 a6 a7 a8 [a9 a9'] a10 a11 a12 a13] [b1 b2 b3 b4 b5 b6 b7 b8 [b9 b9'] b10 b11 b12 b13].
+  intros [a1 a2 a3 a4 a5 a6 a7 a8 [a9 a9'] a10 a11 a12 a13 [a14 a14']] [b1 b2 b3 b4 b5 b6 b7 b8 [b9 b9'] b10 b11 b12 b13 [b14 b14']].
   constructor; try (split); try congruence; auto.
   - destruct a13 as [[x1 x2]|[x1 [x2 x3]]], b13 as [[y1 y2]|[y1 [y2 y3]]]; try (left; split; congruence); try (right; repeat split; congruence).
 Qed.
@@ -61,7 +62,7 @@ Ltac use L := repeat match goal with E : _ = (_, _, _) |- _ => apply L in E; des
 
 Lemma In3_via s X s0 : In3 (set_mblock (Some None) X) s0 -> s_mblock s0 = None -> In3 s X -> In3 s s0.
 Proof.
-  intros [a1 a2 a3 a4 a5 a6 a7 a8 [a9 a9'] a10 a11 a12 a13] Hm [b1 b2 b3 b4 b5 b6 b7 b8 [b9 b9'] b10 b11 b12 b13].
+  intros [a1 a2 a3 a4 a5 a6 a7 a8 [a9 a9'] a10 a11 a12 a13 [a14 a14']] Hm [b1 b2 b3 b4 b5 b6 b7 b8 [b9 b9'] b10 b11 b12 b13 [b14 b14']].
   unfold rcall_active in *. psimpl.
   constructor; try split; try congruence; auto.
   destruct a13 as [[x1 x2]|[x1 [x2 x3]]], b13 as [[y1 y2]|[y1 [y2 y3]]]; try (left; split; congruence); try (right; repeat split; congruence).
@@ -284,7 +285,7 @@ Proof.
   (* last_processed / last_committed are not touched *)
   all: try (solve [ match goal with |- s_lp (set_startd None (set_stopping false ?x)) = _ /\ _ =>
                       let L := fresh "L" in assert (L : In3 (set_stopping true s) x) by in3_chain;
-                      destruct L as [_ _ _ _ _ _ _ _ _ _ Llp Llc _]; psimpl; split; assumption end ]).
+                      destruct L as [_ _ _ _ _ _ _ _ _ _ Llp Llc _ _]; psimpl; split; assumption end ]).
   (* outputs: nothing but cancellations and outcomes; the start Deferred succeeds with last_processed_offset *)
   all: try match goal with |- forallb _ _ = true =>
          try match goal with |- context [OStartD true (encv (s_lp ?x))] =>
@@ -307,7 +308,7 @@ Proof.
          assert (Qcc : s_ccall x = None) by back; assert (Qlo : s_looper x = None) by back;
          assert (L : In3 (set_stopping true s) x) by in3_chain
        end.
-  all: destruct L as [_ _ _ _ _ _ _ _ _ _ Llp Llc Lsu]; psimpl.
+  all: destruct L as [_ _ _ _ _ _ _ _ _ _ Llp Llc Lsu _]; psimpl.
   all: unfold quiescent, looper_armed, rcall_active in *; psimpl; rewrite Qreq, Qproc, Qmb, Qcds, Qcreq, Qcc, Qlo, Qrc.
   all: repeat split; auto.
   all: destruct Lsu as [[x1 x2]|[x1 [x2 x3]]]; rewrite ?x1, ?x2, ?x3 in *;
